@@ -100,6 +100,8 @@ func main() {
 		if !*keep {
 			os.RemoveAll(e.scratch)
 		}
+	case "selftest":
+		os.Exit(runSelftest())
 	case "check":
 		if len(os.Args) < 4 {
 			usage()
